@@ -247,6 +247,34 @@ def run(chk):
         report(chk, "; ".join(probs[:3]), replay_text(lines, res), found)
     if bad:
         chk.cov["failing_runs"] = len(bad)
+    # ---- ThreadSanitizer on trials without coroutines (the hand-switched stacks are not known to TSan) ------------------
+    if not chk.violations:
+        vlib.VARIANTS.setdefault("tsan", ["-O1", "-g", "-fno-omit-frame-pointer", "-fsanitize=thread", "-DNDEBUG"])
+        try:
+            tsan = vlib.build_impl("tsan")
+            c_tsan = vlib.cc_harness("expdrv", tsan)
+        except vlib.ImplBuildError as ex:
+            c_tsan = None
+            chk.notes.append("ThreadSanitizer build not available: %s" % str(ex)[:200])
+        if c_tsan:
+            rt = Runner(chk, c_tsan, lean_exe)
+            plain = [0, expcorr.K_SAMP, expcorr.K_SAMP | expcorr.K_MEMO] + ([expcorr.K_SAMP | expcorr.K_FLIP] if flips_ok else [])
+            n_ts = 0
+            for k, (W, n) in enumerate([(4, 200), (0, 64), (3, 3), (2, 1), (8, 2000), (0, 500)] if quick else
+                                       [(4, 200), (0, 64), (3, 3), (2, 1), (8, 2000), (0, 500)] * 8):
+                sc = Scenario("par", W, n, expcorr.SIZES[k % len(expcorr.SIZES)], chk.seed + k, k % 7, 20 if n < 100 else 0,
+                              plain[k % len(plain)])
+                res = rt.run_par(sc)
+                rn.evals += 1
+                n_ts += 1
+                race = [l for l in res["err"].splitlines() if "ThreadSanitizer" in l]
+                if race or res["problems"]:
+                    locs = [l.strip() for l in res["err"].splitlines() if l.strip().startswith("#0") or "Location is" in l][:4]
+                    report(chk, "ThreadSanitizer build: %s %s" % ("; ".join(race[:1] + res["problems"][:2]), " | ".join(locs)),
+                           replay_text([sc.line()], res, res["err"][:3000]), True)
+                    break
+                rn.validated += 1
+            chk.cov["threadsanitizer_runs"] = n_ts
     # ---- thorough: sanitizer build on a slice -----------------------------
     if not quick and not chk.violations:
         san = vlib.build_impl("san")
